@@ -502,6 +502,22 @@ func c14Construct(r *mon.Run, ai *apiInfo, name string, rep int64) {
 			if full[n] != sentinel {
 				r.Violate("variadic-slice-written", c, "%s(items...) wrote into the spare capacity of the caller's slice", name)
 			}
+			for i := range items8 {
+				if backing[i] != items8[i] {
+					r.Violate("variadic-slice-written", c, "%s(items...) rearranged the caller's slice: element %d changed", name, i)
+					break
+				}
+			}
+			{
+				a10, items10 := mk()
+				_ = a10
+				ref2 := fn.Call(valuesOf(items10))[0].Interface().(*jen.Statement).Id("tail2Q")
+				got2, _ := rawFile(s2)
+				exp2, _ := rawFile(ref2)
+				if got2 != exp2 {
+					r.Violate("variadic-slice-aliased", c, "the second %s(items...) built from the same slice renders\n%s\na private build renders\n%s", name, got2, exp2)
+				}
+			}
 			a9, items9 := mk()
 			_ = a9
 			ref1 := fn.Call(valuesOf(items9))[0].Interface().(*jen.Statement).Id("tail1Q")
@@ -547,6 +563,31 @@ func c14Construct(r *mon.Run, ai *apiInfo, name string, rep int64) {
 		got, pg := build(false)
 		exp, pe := build(true)
 		if pg == "" && pe == "" && got != exp {
+			r.Violate("group-form-differs", c, "%s: when the callback also adds to the enclosing group, g.%s(cb) renders\n%s\nbut g.Add(%s(cb)) renders\n%s", name, name, got, name, exp)
+		}
+	}
+	// same for a func(*Statement) callback (Do): g.Do(cb) must equal g.Add(Do(cb)) when cb also adds to g
+	if ft.NumIn() == 1 && ft.In(0) == tStmtFunc {
+		build := func(viaAdd bool) string {
+			blk := jen.BlockFunc(func(outer *jen.Group) {
+				outer.Id("firstQ")
+				cb := func(st *jen.Statement) {
+					outer.Id("fromCallbackQ")
+					st.Id("builtQ")
+				}
+				mon.Guard(func() {
+					if viaAdd {
+						outer.Add(fn.Call([]reflect.Value{reflect.ValueOf(cb)})[0].Interface().(*jen.Statement))
+					} else {
+						gm.Func.Call([]reflect.Value{reflect.ValueOf(outer), reflect.ValueOf(cb)})
+					}
+				})
+				outer.Id("lastQ")
+			})
+			out, _ := rawFile(blk)
+			return out
+		}
+		if got, exp := build(false), build(true); got != exp {
 			r.Violate("group-form-differs", c, "%s: when the callback also adds to the enclosing group, g.%s(cb) renders\n%s\nbut g.Add(%s(cb)) renders\n%s", name, name, got, name, exp)
 		}
 	}
